@@ -363,7 +363,7 @@ func goC02(c *Ctx, r *Repo) {
 	}
 
 	// ---- R02.4
-	goR024(c, r, ip)
+	goR024(c, r, ip, "R02.4")
 }
 
 // selChainCalls finds the root identifier of a chain of selectors/calls: a.b().c().d
@@ -669,11 +669,11 @@ func exprOrNone(e ast.Expr) string {
 }
 
 // goR024: discovery is package-level only.
-func goR024(c *Ctx, r *Repo, ip *packages.Package) {
+func goR024(c *Ctx, r *Repo, ip *packages.Package, rule string) {
 	info := ip.TypesInfo
 	visit := FuncDecl(ip, "NodeVisitor.Visit")
 	if visit == nil {
-		c.Fail("R02.4", "Visit|missing", "internal/node_visitor.go", "NodeVisitor.Visit not found")
+		c.Fail(rule, "Visit|missing", "internal/node_visitor.go", "NodeVisitor.Visit not found")
 		return
 	}
 	c.Func(funcKey(ip, visit))
@@ -702,19 +702,19 @@ func goR024(c *Ctx, r *Repo, ip *packages.Package) {
 	blocks := skips["*go/ast.BlockStmt"]
 	for _, t := range []string{"*go/ast.FuncDecl", "*go/ast.FuncLit"} {
 		if skips[t] || blocks {
-			c.OK("R02.4", "Visit|skip|"+t, r.Pos(visit.Pos()), "Visit returns nil for "+t)
+			c.OK(rule, "Visit|skip|"+t, r.Pos(visit.Pos()), "Visit returns nil for "+t)
 		} else {
-			c.Fail("R02.4", "Visit|descends|"+t, r.Pos(visit.Pos()), "NodeVisitor.Visit descends into "+t+" bodies: a function-local type named like a package-level interface is collected and that interface is mocked twice")
+			c.Fail(rule, "Visit|descends|"+t, r.Pos(visit.Pos()), "NodeVisitor.Visit descends into "+t+" bodies: a function-local type named like a package-level interface is collected and that interface is mocked twice")
 		}
 	}
 	// the lookup of each discovered name is nil-checked before use
 	pp := FuncDecl(ip, "Parser.ParsePackages")
 	if pp == nil {
-		c.Fail("R02.4", "ParsePackages|missing", "internal/parse.go", "Parser.ParsePackages not found")
+		c.Fail(rule, "ParsePackages|missing", "internal/parse.go", "Parser.ParsePackages not found")
 		return
 	}
 	c.Func(funcKey(ip, pp))
-	checkLookupNilGuard(c, r, ip, pp, "R02.4")
+	checkLookupNilGuard(c, r, ip, pp, rule)
 }
 
 // checkLookupNilGuard: every `x := scope.Lookup(..)` in fd is followed by a nil
